@@ -267,6 +267,14 @@ def check_gating(m, f, rule):
         blk = None
         if xi is not None and xi.op == 'load':
             a = resolve_addr(f, xi.o[0])
+            ri_ = f.get(strip_bitcasts(f, a.root)) if isinstance(a.root, str) else None
+            if a.fsteps[-1:] == ((GP, 'ptr'),) and a.fsteps[0][0] == SPD and ri_ is not None and ri_.op == 'call' and ri_.callee in ('malloc', 'calloc') \
+                    and not any(s2.op == 'store' and slot_of(f, resolve_addr(f, s2.o[1])) is not None and strip_bitcasts(f, s2.o[0]) == ri_.ref and f.dominates(s2, c)
+                                for s2 in f.all_insts()):
+                # the managed pointer of a bookkeeping block this very call allocated and has not published yet (the reset that
+                # opens unique_ptr_alloc on the fresh block): nobody else can own it
+                rule.ok('%s:destroy-unpublished' % f.name, 'the managed pointer of a block allocated here and not yet installed anywhere', c.loc())
+                continue
             if a.fsteps[-1:] == ((GP, 'ptr'),) and a.fsteps[0][0] == SPD:
                 site, want, blk = '%s:destroy' % f.name, 'hard', a.root       # free(d->up.gp.ptr): the managed memory
             elif slot_of(f, a) is not None or a.fsteps[-1:] == ((GP, 'ptr'),):
